@@ -24,6 +24,9 @@ Spec oracle (Python, on the implementation's output only, independent of the mod
 multiset, size and list after *every* operation, brute-force distance lists for every query, answers
 are sub-multisets of the current contents, sorted; an independent GnatInv checker on every dump.
 Element identities among equal distances are never compared (ties are broken by addresses).
+Round 10: GreedyKCenters::kcenters called directly (`kc`, judge_kc: contract oracle + the model with its matrix,
+Model/NNKCenters.lean); boundary parameters (gen_boundary_params); parameters outside ParamsOK (degree / minDegree = 0,
+finding F400) are judged by the oracle alone.
 """
 import collections
 import concurrent.futures
@@ -1370,11 +1373,18 @@ MANIFEST = {
             "dynamic type on shipped spaces x planners; the two GNAT variants agree (gnat_variants_agree) and are run against each "
             "other on identical histories. setDistanceFunction after adds (rebuild under the new function), reportsSortedResults, "
             "integrityCheck and operator<< are driven; exact distance ties are compared as sets (F202: the GNAT orders ties by "
-            "address) while distance lists, size, list and the tree itself must be identical under two heap layouts.",
+            "address) while distance lists, size, list and the tree itself must be identical under two heap layouts. "
+            "GreedyKCenters::kcenters is modelled WITH its Eigen matrix (resize rule, every write bounds-checked, cells unwritten "
+            "until stored: kcenters_matrix_exact) and called directly with every relation between k, n and the caller's matrix, "
+            "line by line against the model plus a contract oracle; boundary parameters (degree 1, minDegree 1, leaf 0, cache 0) run "
+            "in lock-step; histories with setDistanceFunction between operations: gnat_history_with_set_distance_function.",
     "note": "Trusted: Lean kernel, the three standard axioms, the hand-written model outside what the correspondence explored "
             "(addresses -> ids, unstable sort, add()'s isRemoved test on the caller's object), the harness. Operation theorems "
-            "assume degree/minDegree/maxDegree >= 1 (minDegree = 0 makes the real split() call kcenters with k = 0: candidate "
-            "finding in notes/C10.md), dist x x = 0 <= dist x y, 0 < eps, and for remove a genuine metric. F16 is fixed in /repo.",
+            "assume the user's degree and minDegree >= 1 (established from the constructor: gnat_ctor_establishes_inv, "
+            "gnat_history_from_ctor), dist x x = 0 <= dist x y, 0 < eps, and for remove a genuine metric. Known finding F400: "
+            "degree = 0 / minDegree = 0 are accepted by the constructor and make split() call kcenters with k = 0, which writes "
+            "into an n x 0 matrix (kcenters_zero_columns_fails, min_degree_zero_fails; replay notes/C10-F400-replay.json). "
+            "F16 (= F19) is fixed in /repo.",
     "technique": "Lean 4 proof (multiset loop invariant over the two priority queues, generic in the k-nearest / radius collector; "
                  "triangle-inequality pruning lemmas under an executable invariant; greedy k-centers loop invariant; per-child "
                  "view of the split loop; refinement to a multiset over operation histories) + lock-step differential "
